@@ -59,6 +59,11 @@ where
     }
 
     let live_for = live_until_ledger - current_ledger;
+    // Drop any previous pending entry first: `set` on a live temporary entry
+    // keeps its old TTL and `extend_ttl` never shortens it, so without this a
+    // shorter-lived offer replacing a longer-lived one would stay acceptable
+    // after its own `live_until_ledger`.
+    e.storage().temporary().remove(pending_key);
     e.storage().temporary().set(pending_key, new);
     e.storage().temporary().extend_ttl(pending_key, live_for, live_for);
 }
